@@ -20,6 +20,7 @@ type rawChild struct {
 type rawPart struct {
 	rootStart []byte
 	rootName  string // 根元素带前缀的名称
+	declaresW bool   // 根元素的起始标签已声明前缀 w
 	children  []rawChild
 }
 
@@ -53,6 +54,14 @@ func readRawPart(raw []byte, rootLocal string) *rawPart {
 					name = name[:i]
 				}
 				part.rootName = name
+				// 是否已声明前缀 w 以解析出的属性为准：声明可以写成 xmlns:w = "..."（等号两侧有空白），
+				// 属性值里也可能出现 "xmlns:w=" 字样，按字节查找都会判断错
+				part.declaresW = false
+				for _, attr := range t.Attr {
+					if attr.Name.Space == "xmlns" && attr.Name.Local == "w" {
+						part.declaresW = true
+					}
+				}
 			case 2:
 				childBegin = before
 				child = rawChild{local: t.Name.Local, attrs: map[string]string{}}
@@ -81,7 +90,7 @@ func (p *rawPart) openTag(xmlnsW string) []byte {
 	if bytes.HasSuffix(tag, []byte("/>")) {
 		tag = append(tag[:len(tag)-2], '>')
 	}
-	if !bytes.Contains(tag, []byte("xmlns:w=")) {
+	if !p.declaresW {
 		tag = append(tag[:len(tag)-1], []byte(` xmlns:w="`+xmlnsW+`">`)...)
 	}
 	return tag
